@@ -51,7 +51,7 @@ def special_cases(tier, seed):
             n = N * P
             ops = [(0, 0, "async", (1 << 22) + 1, n - 1, size, 0), (0, n - 1, "async", (1 << 22) + 2, 0, 8, 1)]
             if kb is None:
-                ops.append((0, 1 % n, "bcast", (1 << 22) + 3, 100, 0))
+                ops.append((0, 1 % n, "bcast", (1 << 22) + 3, 24 * 1000 * 1000, 0))     # one broadcast payload larger than the send buffer
             sc = T.Scenario(n, 1, dict(params), [8, 100], ops)
             cfg = T.Config(N, P, rng.choice(T.ROUTINGS), kb, irecvs=rng.choice([1, 2]), isends_wait=rng.choice([0, 4]), issend=rng.choice([0, 8]),
                            policy=rng.choice(T.POLICIES), eager=rng.choice([0, 100]), sim_seed=rng.below(1 << 30))
@@ -71,7 +71,7 @@ def special_cases(tier, seed):
 
 def extra(local, sc, cfg, sr, hev, wire, out):
     from props import acceptors
-    if any(op[2] == "async" and int(op[5]) > (1 << 20) for op in sc.ops):
+    if any((op[2] == "async" and int(op[5]) > (1 << 20)) or (op[2] == "bcast" and int(op[4]) > (1 << 20)) for op in sc.ops):
         return      # oracle-only family (see special_cases): the payload bytes are not logged
     acceptors.deliver(local, sc, cfg, hev, wire)
 
